@@ -84,6 +84,11 @@ class Ctx:
             w["shard"] = self.shard
             self.violations.append(w)
 
+    def scale(self, quick, thorough):
+        """number of random cases per shard; VF_SCALE multiplies (e.g. 0.1 for a smoke run)"""
+        n = quick if self.quick else thorough
+        return max(1, int(n * float(os.environ.get("VF_SCALE", "1"))))
+
     def mine(self, idx):
         """round-robin sharding of enumerated grids"""
         return idx % self.nshards == self.shard
